@@ -115,7 +115,9 @@ func (dv *Router) Start() (err error) {
 	defer dv.pfxSvs.Stop()
 
 	// Add self to the RIB
+	dv.mutex.Lock()
 	dv.rib.Set(dv.config.RouterName(), dv.config.RouterName(), 0)
+	dv.mutex.Unlock()
 
 	for {
 		select {
